@@ -35,6 +35,8 @@ Proof. intros. unfold pad2, dec_value. cbn [fold_left]. lia. Qed.
 Lemma pad3_value n : 0 <= n < 1000 -> dec_value (pad3 n) = n.
 Proof. intros. unfold pad3, dec_value. cbn [fold_left]. lia. Qed.
 
+Lemma two_digits_pad2 n : 0 <= n < 100 -> two_digits (pad2 n) = true.
+Proof. intros. unfold two_digits. rewrite (forall_dig_all_digits (pad2 n)) by (apply pad2_dig; lia). reflexivity. Qed.
 Lemma hours_fold : forall hd a, fold_left (fun a c => a * 10 + (c - 48)) (map (fun d => 48 + d) hd) a
                                = a * 10 ^ Z.of_nat (length hd) + digits_value hd.
 Proof.
@@ -46,19 +48,22 @@ Qed.
 Lemma hours_value hd : dec_value (map (fun d => 48 + d) hd) = digits_value hd.
 Proof. unfold dec_value. rewrite hours_fold. lia. Qed.
 Lemma hours_dig hd : Forall digit_ok hd -> Forall dig (map (fun d => 48 + d) hd).
-Proof. induction 1; cbn; [constructor|constructor; [unfold digit_ok, dig in *; lia|assumption]]. Qed.
+Proof.
+  intros H. induction hd as [|d hd IH]; cbn [map].
+  - apply Forall_nil.
+  - inversion H; subst. apply Forall_cons; [unfold digit_ok, dig in *; lia|apply IH; assumption].
+Qed.
 
 Lemma sec_ms_print s f : 0 <= s < 60 -> 0 <= f < 1000 ->
-  sec_ms (pad2 s ++ [46] ++ pad3 f) = Some (s, f).
+  sec_ms (pad2 s ++ 46 :: pad3 f) = Some (s, f).
 Proof.
-  intros Hs Hf. unfold sec_ms, split_on.
+  intros Hs Hf. change (pad2 s ++ 46 :: pad3 f) with (pad2 s ++ [46] ++ pad3 f). unfold sec_ms, split_on.
   rewrite split_aux_acc by (apply forall_dig_ne; [lia|apply pad2_dig; lia]).
   cbn [app]. rewrite split_aux_sep.
   rewrite split_aux_end by (apply forall_dig_ne; [lia|apply pad3_dig; lia]).
-  cbn [app]. unfold two_digits.
-  rewrite (forall_dig_all_digits (pad2 s)) by (apply pad2_dig; lia).
+  cbn [app]. rewrite two_digits_pad2 by lia.
   rewrite (forall_dig_all_digits (pad3 f)) by (apply pad3_dig; lia).
-  cbn [length pad2 pad3 Nat.eqb andb]. fold (pad2 s). fold (pad3 f).
+  replace (length (pad3 f) =? 3)%nat with true by reflexivity. cbn [andb].
   rewrite pad2_value, pad3_value by lia. reflexivity.
 Qed.
 
@@ -77,12 +82,11 @@ Proof.
     rewrite split_aux_acc by (apply forall_dig_ne; [lia|apply pad2_dig; lia]).
     cbn [app]. rewrite split_aux_sep.
     rewrite split_aux_end by exact Hrest.
-    cbn [app]. unfold two_digits.
+    cbn [app]. rewrite two_digits_pad2 by lia.
     rewrite (forall_dig_all_digits (map _ hd)) by (apply hours_dig; assumption).
-    rewrite (forall_dig_all_digits (pad2 m)) by (apply pad2_dig; lia).
     rewrite map_length.
     replace (2 <=? length hd)%nat with true by (symmetry; apply Nat.leb_le; exact Hlen).
-    cbn [length pad2 Nat.eqb andb]. fold (pad2 m).
+    cbn [andb].
     rewrite sec_ms_print by lia. rewrite hours_value, pad2_value by lia. f_equal. lia.
   - unfold timestamp_ms, split_on. cbn [app].
     change (pad2 m ++ 58 :: pad2 s ++ 46 :: pad3 f) with (pad2 m ++ [58] ++ pad2 s ++ [46] ++ pad3 f).
@@ -90,10 +94,8 @@ Proof.
     cbn [app]. rewrite split_aux_sep.
     change (pad2 s ++ 46 :: pad3 f) with (pad2 s ++ [46] ++ pad3 f).
     rewrite split_aux_end by exact Hrest.
-    cbn [app]. unfold two_digits.
-    rewrite (forall_dig_all_digits (pad2 m)) by (apply pad2_dig; lia).
-    cbn [length pad2 Nat.eqb andb]. fold (pad2 m).
-    rewrite sec_ms_print by lia. rewrite pad2_value by lia. f_equal. lia.
+    cbn [app]. rewrite two_digits_pad2 by lia.
+    rewrite sec_ms_print by lia. rewrite pad2_value by lia. f_equal; try lia.
 Qed.
 
 Theorem exact_time t : wf_ts t -> vtt_timestamp_to_secs (print_ts t) = Some (Qmake (ts_ms t) 1000).
